@@ -139,6 +139,10 @@ def locate_slice(values, start, stop, step, issorted=False):
 
         if step is not None and step < 0:
             istart -= 1
+            if istart < 0:
+                # start lies before the first label: nothing to select
+                # (a plain -1 would wrap around to the last element)
+                istart = -values.size - 1
     else:
         istart = None
 
